@@ -1,6 +1,7 @@
 package gozxing
 
 import (
+	"math"
 	"math/bits"
 	"strings"
 
@@ -21,6 +22,9 @@ func NewSquareBitMatrix(dimension int) (*BitMatrix, error) {
 func NewBitMatrix(width, height int) (*BitMatrix, error) {
 	if width < 1 || height < 1 {
 		return nil, errors.New("IllegalArgumentException: Both dimensions must be greater than 0")
+	}
+	if width > math.MaxInt32 || height > math.MaxInt32 || (width+31)/32 > math.MaxInt32/height {
+		return nil, errors.New("IllegalArgumentException: Dimensions are too large")
 	}
 	rowSize := (width + 31) / 32
 	bits := make([]uint32, rowSize*height)
